@@ -8,7 +8,9 @@
  *
  *   case k | setv W* | null | append W | appendn W | prepend W | appendu W ow | insert start (NULL|W*)
  *   inselt loc (NULL|W) | delete start num | count | len | copy | join d | joinr start end d
- *   split W d | splite W d | parse ign nopt {short sd long np}*nopt W*
+ *   split W d | splite W d | parse ign nopt {short sd long np}*nopt W*          (fresh handle per op)
+ *   hnew nopt {short sd long np}*nopt | haddopt short sd long np | hparse ign W* | hdump | htail
+ *   hninsts W | hparam W inst idx | hargv idx      (ONE persistent handle, parsed any number of times)
  *
  * Calls outside the API precondition are not issued (`rejected`): delimiter not in 1..127,
  * a string with a NUL byte, |int| > 1000000, negative size_t, more than 32 options. */
@@ -105,75 +107,75 @@ static void do_split(char **w, int nw, int with_empty)
     free(j); parsec_argv_free(r); free(s);
 }
 
-static void do_parse(char **w, int nw)
+/* ---- command-line handles.  Declared options are remembered (names) so that every one can be queried. */
+typedef struct { parsec_cmd_line_t cmd; int live, n; char sh[33]; char *nm[33][2]; } handle_t;
+static handle_t H;      /* the persistent handle of the h* ops */
+
+static void handle_clear(handle_t *h)
 {
-    long ign, nopt;
-    if( nw < 3 || get_int(w[1], &ign) || get_int(w[2], &nopt) || nopt < 0 || (ign != 0 && ign != 1) ) { printf("bad-op\n"); return; }
-    if( nopt > 32 ) { printf("rejected\n"); return; }
-    if( nw < 3 + 4 * nopt ) { printf("bad-op\n"); return; }
-    parsec_cmd_line_init_t table[33];
-    char *names[33][2]; char shorts[33];
-    memset(table, 0, sizeof(table)); memset(names, 0, sizeof(names));
+    if( h->live ) PARSEC_OBJ_DESTRUCT(&h->cmd);
+    for(int k = 0; k < 33; k++) { free(h->nm[k][0]); free(h->nm[k][1]); }
+    memset(h, 0, sizeof(*h));
+}
+/* decode one option entry f[0..3]; 0 ok, 1 malformed, 2 outside the precondition */
+static int get_opt(char **f, char *sh, char **sd, char **lg, long *np)
+{
+    long s; int r = 0, rc;
+    *sd = *lg = NULL;
+    if( get_int(f[0], &s) || get_int(f[3], np) ) return 1;
+    if( s < 0 || s > 127 || *np < -BIG || *np > BIG ) r = 2;
+    *sh = (char)s;
+    rc = get_word(f[1], sd); if( rc == 1 ) return 1; if( rc == 2 ) r = 2;
+    rc = get_word(f[2], lg); if( rc == 1 ) { free(*sd); *sd = NULL; return 1; } if( rc == 2 ) r = 2;
+    return r;
+}
+/* decode nopt entries into a scratch table; 0 ok, 1 bad-op, 2 rejected */
+static int get_table(char **w, long nopt, char *sh, char *nm[][2], long *np)
+{
     int bad = 0, rej = 0;
     for(int k = 0; k < nopt && !bad; k++) {
-        char **f = w + 3 + 4 * k; long sh, np;
-        if( get_int(f[0], &sh) || get_int(f[3], &np) ) { bad = 1; break; }
-        if( sh < 0 || sh > 127 || np < -BIG || np > BIG ) rej = 1;
-        shorts[k] = (char)sh;
-        for(int m = 0; m < 2; m++) {
-            int rc = get_word(f[1 + m], &names[k][m]);
-            if( rc == 1 ) bad = 1; else if( rc == 2 ) rej = 1;
-        }
-        table[k].ocl_mca_param_name = NULL;
-        table[k].ocl_cmd_short_name = shorts[k];
-        table[k].ocl_cmd_single_dash_name = names[k][0];
-        table[k].ocl_cmd_long_name = names[k][1];
-        table[k].ocl_num_params = (int)np;
-        table[k].ocl_variable_dest = NULL;
-        table[k].ocl_variable_type = PARSEC_CMD_LINE_TYPE_NULL;
-        table[k].ocl_description = NULL;
+        int rc = get_opt(w + 4 * k, &sh[k], &nm[k][0], &nm[k][1], &np[k]);
+        if( rc == 1 ) bad = 1; else if( rc == 2 ) rej = 1;
     }
-    char **av = NULL;
-    if( !bad ) { int rc = get_vec(w + 3 + 4 * nopt, nw - 3 - 4 * (int)nopt, &av); if( rc == 1 ) bad = 1; else if( rc == 2 ) rej = 1; }
-    if( bad || rej ) { printf("%s\n", bad ? "bad-op" : "rejected"); goto out; }
-    /* a table entry without any name terminates the table in parsec_cmd_line_create: feed the entries
-       one by one through make_opt3 (the public per-entry constructor, same make_opt underneath) */
-    parsec_cmd_line_t cmd;
-    int crc = parsec_cmd_line_create(&cmd, NULL);
-    for(int k = 0; k < nopt && PARSEC_SUCCESS == crc; k++)
-        crc = parsec_cmd_line_make_opt3(&cmd, table[k].ocl_cmd_short_name, table[k].ocl_cmd_single_dash_name,
-                                        table[k].ocl_cmd_long_name, table[k].ocl_num_params, NULL);
-    if( PARSEC_SUCCESS != crc ) { printf("create=%d\n", crc); PARSEC_OBJ_DESTRUCT(&cmd); goto out; }
-    int ac = parsec_argv_count(av);
-    fflush(stdout);
-    int prc = parsec_cmd_line_parse(&cmd, (bool)ign, ac, av);
-    printf("rc=%d argv=", prc);
+    return bad ? 1 : rej ? 2 : 0;
+}
+/* add one option through the public per-entry constructor; remembered only if accepted */
+static int handle_add(handle_t *h, char sh, char *sd, char *lg, long np)
+{
+    int rc = parsec_cmd_line_make_opt3(&h->cmd, sh, sd, lg, (int)np, NULL);
+    if( PARSEC_SUCCESS == rc ) { h->sh[h->n] = sh; h->nm[h->n][0] = sd ? strdup(sd) : NULL; h->nm[h->n][1] = lg ? strdup(lg) : NULL; h->n++; }
+    return rc;
+}
+static void handle_dump(handle_t *h, int ac)
+{
+    parsec_cmd_line_t *cmd = &h->cmd;
+    printf("argv=");
     {   /* through the public accessors */
-        int n = parsec_cmd_line_get_argc(&cmd);
+        int n = parsec_cmd_line_get_argc(cmd);
         printf("%d:[", n);
-        for(int i = 0; i < n; i++) { char *a = parsec_cmd_line_get_argv(&cmd, i); if( i ) putchar(' '); if( a ) put_word(a); else printf("NULL"); }
+        for(int i = 0; i < n; i++) { char *a = parsec_cmd_line_get_argv(cmd, i); if( i ) putchar(' '); if( a ) put_word(a); else printf("NULL"); }
         printf("]");
-        if( n != parsec_argv_count(cmd.lcl_argv) ) printf("!count=%d", parsec_argv_count(cmd.lcl_argv));
-        if( n > ac ) n_bundles++;
+        if( n != parsec_argv_count(cmd->lcl_argv) ) printf("!count=%d", parsec_argv_count(cmd->lcl_argv));
+        if( ac >= 0 && n > ac ) n_bundles++;
     }
     {
         int tc = -1; char **tv = NULL;
-        parsec_cmd_line_get_tail(&cmd, &tc, &tv);
+        parsec_cmd_line_get_tail(cmd, &tc, &tv);
         printf(" tail=%d:", tc); put_vec(tv); parsec_argv_free(tv);
     }
     printf(" q=");
-    for(int k = 0; k < nopt; k++) {
-        char sname[2] = { shorts[k], 0 };
-        const char *qn[3] = { shorts[k] ? sname : NULL, names[k][0], names[k][1] };
+    for(int k = 0; k < h->n; k++) {
+        char sname[2] = { h->sh[k], 0 };
+        const char *qn[3] = { h->sh[k] ? sname : NULL, h->nm[k][0], h->nm[k][1] };
         for(int m = 0; m < 3; m++) {
             if( NULL == qn[m] ) continue;
-            int n = parsec_cmd_line_get_ninsts(&cmd, qn[m]);
+            int n = parsec_cmd_line_get_ninsts(cmd, qn[m]);
             printf(" %d%c:%d", k, "sdl"[m], n);
-            if( (n > 0) != parsec_cmd_line_is_taken(&cmd, qn[m]) ) printf("!taken");
+            if( (n > 0) != parsec_cmd_line_is_taken(cmd, qn[m]) ) printf("!taken");
             for(int inst = 0; inst < n; inst++) {
                 printf(" (");
                 for(int idx = 0; ; idx++) {
-                    char *p = parsec_cmd_line_get_param(&cmd, qn[m], inst, idx);
+                    char *p = parsec_cmd_line_get_param(cmd, qn[m], inst, idx);
                     if( NULL == p ) break;
                     putchar(' '); put_word(p);
                 }
@@ -182,10 +184,91 @@ static void do_parse(char **w, int nw)
         }
     }
     printf("\n");
-    PARSEC_OBJ_DESTRUCT(&cmd);
+}
+static void scratch_free(long nopt, char *nm[][2]) { for(int k = 0; k < nopt; k++) { free(nm[k][0]); free(nm[k][1]); } }
+
+/* parse ign nopt {..}* W*  : fresh handle;   hnew nopt {..}*  : replace the persistent handle */
+static void do_parse(char **w, int nw, int persistent)
+{
+    long ign = 0, nopt; int base = persistent ? 1 : 2;
+    if( nw < base + 1 || (!persistent && get_int(w[1], &ign)) || get_int(w[base], &nopt) || nopt < 0 || (ign != 0 && ign != 1) ) { printf("bad-op\n"); return; }
+    if( nopt > 32 ) { printf("rejected\n"); return; }
+    if( nw < base + 1 + 4 * nopt ) { printf("bad-op\n"); return; }
+    char sh[33]; char *nm[33][2]; long np[33];
+    memset(nm, 0, sizeof(nm));
+    int trc = get_table(w + base + 1, nopt, sh, nm, np);
+    char **av = NULL;
+    if( persistent && trc != 1 && nw != base + 1 + 4 * nopt ) trc = 1;
+    if( !persistent && trc != 1 ) { int rc = get_vec(w + 3 + 4 * nopt, nw - 3 - 4 * (int)nopt, &av); if( rc == 1 ) trc = 1; else if( rc == 2 ) trc = 2; }
+    if( trc ) { printf("%s\n", trc == 1 ? "bad-op" : "rejected"); goto out; }
+    static handle_t T;
+    handle_t *h = persistent ? &H : &T;
+    handle_clear(h);
+    int crc = parsec_cmd_line_create(&h->cmd, NULL);
+    h->live = 1;
+    for(int k = 0; k < nopt && PARSEC_SUCCESS == crc; k++) crc = handle_add(h, sh[k], nm[k][0], nm[k][1], np[k]);
+    if( persistent ) { printf("hrc=%d nopts=%d\n", crc, h->n); goto out; }
+    if( PARSEC_SUCCESS != crc ) { printf("create=%d\n", crc); handle_clear(h); goto out; }
+    int ac = parsec_argv_count(av);
+    fflush(stdout);
+    int prc = parsec_cmd_line_parse(&h->cmd, (bool)ign, ac, av);
+    printf("rc=%d ", prc);
+    handle_dump(h, ac);
+    handle_clear(h);
 out:
-    for(int k = 0; k < 33; k++) { free(names[k][0]); free(names[k][1]); }
+    scratch_free(33, nm);
     parsec_argv_free(av);
+}
+
+/* ops on the persistent handle: haddopt sh sd lg np | hparse ign W* | hdump | htail | hninsts W | hparam W inst idx | hargv idx */
+static void do_hop(char **w, int nw)
+{
+    long a, b; char *s = NULL; int rc;
+    if( !H.live ) { printf("rejected\n"); return; }
+    if( 0 == strcmp(w[0], "haddopt") && nw == 5 ) {
+        char sh, *sd, *lg; long np;
+        rc = get_opt(w + 1, &sh, &sd, &lg, &np);
+        if( rc ) printf("%s\n", rc == 1 ? "bad-op" : "rejected");
+        else if( H.n >= 32 ) printf("rejected\n");
+        else { rc = handle_add(&H, sh, sd, lg, np); printf("%d nopts=%d\n", rc, H.n); }
+        free(sd); free(lg);
+    }
+    else if( 0 == strcmp(w[0], "hparse") && nw >= 2 ) {
+        char **av = NULL;
+        if( get_int(w[1], &a) || (a != 0 && a != 1) ) printf("bad-op\n");
+        else if( (rc = get_vec(w + 2, nw - 2, &av)) ) printf("%s\n", fail_word(rc));
+        else {
+            int ac = parsec_argv_count(av);
+            fflush(stdout);
+            int prc = parsec_cmd_line_parse(&H.cmd, (bool)a, ac, av);
+            printf("rc=%d ", prc);
+            handle_dump(&H, ac);
+        }
+        parsec_argv_free(av);
+    }
+    else if( 0 == strcmp(w[0], "hdump") && nw == 1 ) handle_dump(&H, -1);
+    else if( 0 == strcmp(w[0], "htail") && nw == 1 ) {
+        int tc = -1; char **tv = NULL;
+        parsec_cmd_line_get_tail(&H.cmd, &tc, &tv);
+        printf("%d:", tc); put_vec(tv); printf("\n"); parsec_argv_free(tv);
+    }
+    else if( 0 == strcmp(w[0], "hninsts") && nw == 2 ) {
+        if( (rc = get_word(w[1], &s)) ) printf("%s\n", rc == 2 ? "rejected" : "bad-op");
+        else printf("%d\n", parsec_cmd_line_get_ninsts(&H.cmd, s));
+    }
+    else if( 0 == strcmp(w[0], "hparam") && nw == 4 ) {
+        if( get_int(w[2], &a) || get_int(w[3], &b) ) printf("bad-op\n");
+        else if( (rc = get_word(w[1], &s)) ) printf("%s\n", rc == 2 ? "rejected" : "bad-op");
+        else if( a < 0 || b < 0 || a > BIG || b > BIG ) printf("rejected\n");
+        else { char *p = parsec_cmd_line_get_param(&H.cmd, s, (int)a, (int)b); if( p ) put_word(p); else printf("NULL"); printf("\n"); }
+    }
+    else if( 0 == strcmp(w[0], "hargv") && nw == 2 ) {
+        if( get_int(w[1], &a) ) printf("bad-op\n");
+        else if( a < -BIG || a > BIG ) printf("rejected\n");
+        else { char *p = parsec_cmd_line_get_argv(&H.cmd, (int)a); if( p ) put_word(p); else printf("NULL"); printf("\n"); }
+    }
+    else printf("bad-op\n");
+    free(s);
 }
 
 int main(void)
@@ -272,13 +355,15 @@ int main(void)
         }
         else if( 0 == strcmp(w[0], "split") ) do_split(w, nw, 0);
         else if( 0 == strcmp(w[0], "splite") ) do_split(w, nw, 1);
-        else if( 0 == strcmp(w[0], "parse") ) do_parse(w, nw);
+        else if( 0 == strcmp(w[0], "parse") ) do_parse(w, nw, 0);
+        else if( 0 == strcmp(w[0], "hnew") ) do_parse(w, nw, 1);
+        else if( w[0][0] == 'h' ) do_hop(w, nw);
         else printf("bad-op\n");
         free(s); free(copy);
         fflush(stdout);
     }
     pv_stat("long_args", n_long_args);
     pv_stat("bundle_expansions", n_bundles);
-    parsec_argv_free(V); free(line);
+    parsec_argv_free(V); free(line); handle_clear(&H);
     return 0;
 }
